@@ -90,6 +90,11 @@ def classify(nn, site, atom, pol, dinfo):
                     return ("valuememo", show(x, 60))
             return ("unknown", "membership test outside the lemma table")
     if h == "or" and pol:
+        # d1 <= T1 or d2 <= T2 as the condition for keeping a pair holds as soon as one bound does: it enforces neither bound (a decided
+        # reading - the disjunction is weaker than each of its parts - not an unread guard)
+        parts_ = [classify(nn, site, p_, True, dinfo) for p_ in a[1]]
+        if len(parts_) >= 2 and any(c_[0] == "thr" and c_[2] in ("le", "lt") for c_ in parts_):
+            return ("weak", "a bound that is one alternative of a disjunction")
         # (not flag) or i != j   ==   not (flag and i == j)
         neg = {"==": "!=", "!=": "==", "is": "isnot", "isnot": "is"}
 
@@ -110,6 +115,22 @@ def classify(nn, site, atom, pol, dinfo):
             if strip_all(eqs[0][2]) == strip_all(eqs[0][3]):
                 return ("trivial", show(a, 60))
             return ("self", True, nn.idx_space(q, eqs[0][2]), nn.idx_space(q, eqs[0][3]), flags[0])
+    if h == "ite":
+        # keep  (d1 <= T if c else d2 <= T):  two bounds, each on its branch.  Of the same kind they are that bound; of different kinds both
+        # are recorded - Hamming >= Levenshtein on equal lengths, so the Levenshtein bound holds on either branch and the Hamming bound is a
+        # further filter on one of them
+        ca_, cb_ = classify(nn, site, a[2], pol, dinfo), classify(nn, site, a[3], pol, dinfo)
+        if ca_[0] == "thr" and cb_[0] == "thr" and ca_[2] == cb_[2] and strip_all(ca_[3]) == strip_all(cb_[3]):
+            if base_kind(ca_[1]["kind"]) == base_kind(cb_[1]["kind"]):
+                return ca_
+            return ("multi", [ca_, cb_])
+    if h == "and" and not pol and len(a[1]) >= 2:
+        # skip condition  P and d > T  (with P not one of the forms above): pairs with d > T are kept whenever P fails, so this guard does not
+        # enforce d <= T - whatever P is.  What it *does* drop is not known (P and d > T could hit a neighbour of another kind): unknown stays
+        # unknown unless the rest is a plain threshold as well
+        cs_ = [classify(nn, site, p_, False, dinfo) for p_ in a[1]]
+        if any(c_[0] == "thr" and c_[2] in ("le", "lt") for c_ in cs_) and all(c_[0] in ("thr", "lenfilter") for c_ in cs_):
+            return ("weak", "a bound that applies under a further condition only")
     return ("unknown", "guard outside the lemma table")
 
 
@@ -208,7 +229,9 @@ def check_site(r, rule, nn, site, mode, spaceA, spaceB, self_policy, equal_lengt
     thr, selfs, unknown, lenf = [], [], [], []
     for atom, pol in site.guards:
         c = classify(nn, site, atom, pol, dinfo)
-        if c[0] == "thr":
+        if c[0] == "multi":
+            thr.extend(c[1])
+        elif c[0] == "thr":
             thr.append(c)
         elif c[0] == "self":
             selfs.append(c)
